@@ -278,4 +278,20 @@ theorem mkField_shift (p k e : Nat) (label ty name : String) (num : Int) (raws :
       shF k (mkField .field p Cm.none label ty name (num, raws, e, r')).1 := by
   simp only [mkField, shF, mkLoc, hr, hr', jsonOf_shift, filter_shift, mkOpts_shift]
 
+theorem optionStmt_frame (k : Nat) (more : List PTok) (ts : List PTok) (o : RawOpt) (r : List PTok)
+    (h : optionStmt ts = some (o, r)) :
+    optionStmt (sh k ts ++ more) = some (o.shift k, sh k r ++ more) := by
+  unfold optionStmt at h
+  split at h
+  · rename_i l c tl
+    split at h
+    · rename_i o1 l1 c1 r1 heq
+      simp only [Option.some.injEq, Prod.mk.injEq] at h
+      obtain ⟨rfl, rfl⟩ := h
+      have := rawOption_frame _ k more tl o1 _ r1 heq
+      unfold optionStmt
+      simp only [sh_cons, PTok.shift, List.cons_append, this, RawOpt.shift]
+    · simp at h
+  · simp at h
+
 end J5V.Print.Grammar
